@@ -298,7 +298,9 @@ func Unwrap[T ~string](str T, token string) T {
 	startToken := strings.Index(string(str), token)
 	endToken := strings.LastIndex(string(str), token)
 
-	if startToken == 0 && endToken <= len(str)-1 {
+	// The string is wrapped only if it starts and ends with the token
+	// and the two occurrences do not overlap.
+	if startToken == 0 && endToken == len(str)-len(token) && endToken >= len(token) {
 		str = str[len(token):endToken]
 	}
 
